@@ -21,27 +21,35 @@ Variable netidx : N.
 
 Definition tagged (t : text) : bytes := n2b netidx :: utf32_of_text t.
 
-(* answer: 00 = None, 01 || payload = Some payload *)
+(* answer: 00 = None, 01 || payload = Some payload, 02 = the function raised *)
 Definition opt_bytes_answer (a : bytes) : option bytes :=
   match a with
   | x01 :: r => Some r
   | _ => None
   end.
+Definition raw_bytes_answer (a : bytes) : outcome (option bytes) :=
+  match a with
+  | x01 :: r => Ret (Some r)
+  | x02 :: _ => Raise E_OTHER
+  | _ => Ret None
+  end.
 
-Definition o_b58 (t : text) : option bytes := opt_bytes_answer (raw 0 (tagged t)).
+(* the UNCACHED decoders: the cache (exception swallowing) is in the model *)
+Definition o_b58 (t : text) : outcome (option bytes) := raw_bytes_answer (raw 0 (tagged t)).
 Definition o_compile (t : text) : option bytes := opt_bytes_answer (raw 3 (tagged t)).
 
-(* answer: 00 = None, 01 || hrp length (code points) || hrp utf32 || version || is_m || program *)
-Definition o_bech32 (t : text) : option (text * Z * bytes * bool) :=
+(* answer: 00 = None, 02 = raised, 01 || hrp length (code points) || hrp utf32 || version || is_m || program *)
+Definition o_bech32 (t : text) : outcome (option (text * Z * bytes * bool)) :=
   match raw 1 (tagged t) with
   | x01 :: hl :: r =>
     let n := (4 * N.to_nat (b2n hl))%nat in
     let hrp := text_of_utf32 (take n r) in
     match drop n r with
-    | v :: m :: data => Some (hrp, b2z v, data, negb (byte_eqb m x00))
-    | _ => None
+    | v :: m :: data => Ret (Some (hrp, b2z v, data, negb (byte_eqb m x00)))
+    | _ => Ret None
     end
-  | _ => None
+  | x02 :: _ => Raise E_OTHER
+  | _ => Ret None
   end.
 
 (* answer: 00 = None, 01 || sign (00 / 01 = negative) || magnitude big endian *)
